@@ -42,6 +42,23 @@ Fixpoint walk (observed : list obs) (inv ret : list Z) : list nat :=
       ++ walk rest inv' ret'
   end.
 
+(* 2, at every observation: once Stop was called - or the transport's read failed and writes are not blocked -, in a
+   quiescent point at which every handler started so far has returned, Serve has returned (C10_returns,
+   C10_returns_readfail) *)
+Fixpoint walk2 (acts : list act) (observed : list obs) (stop failread wb : bool) (inv ret : list Z) : list nat :=
+  match acts, observed with
+  | a :: acts', o :: obs' =>
+      let stop' := stop || match a with AStop => true | _ => false end in
+      let fr' := failread || match a with AFailRead => true | _ => false end in
+      let wb' := match a with ABlockWrites b => b | _ => wb end in
+      if unobserved o then walk2 acts' obs' stop' fr' wb' inv ret else
+      let inv' := inv ++ invoked_of (o_events o) in
+      let ret' := ret ++ returned_of (o_events o) in
+      (if (stop' || (fr' && negb wb')) && forallb (fun h => memZ h ret') inv' && negb (o_serve o) then [2%nat] else [])
+      ++ walk2 acts' obs' stop' fr' wb' inv' ret'
+  | _, _ => []
+  end.
+
 Definition triggered (acts : list act) : bool :=
   existsb (fun a => match a with AFailRead | AStop | ASetWriteFail true => true | _ => false end) acts.
 
@@ -68,11 +85,13 @@ Definition final_checks (c : svcase) : list nat :=
 Definition check_case_f (fuel : nat) (c : c10case) : list nat :=
   match c with
   | C10Run sc =>
-      match nodup Nat.eq_dec (match sc with CSrv _ observed => walk observed [] [] end ++ final_checks sc) with
+      match nodup Nat.eq_dec (match sc with CSrv acts observed => walk observed [] [] ++ walk2 acts observed false false false [] [] end
+                              ++ final_checks sc) with
       | [] => check_agree_f fuel sc
       | rs => rs
       end
-  | C10Spec sc => nodup Nat.eq_dec (match sc with CSrv _ observed => walk observed [] [] end ++ final_checks sc)
+  | C10Spec sc => nodup Nat.eq_dec (match sc with CSrv acts observed => walk observed [] [] ++ walk2 acts observed false false false [] [] end
+                                    ++ final_checks sc)
   | C10Dead wedged => if wedged then [8%nat] else [7%nat]
   end.
 
